@@ -159,6 +159,16 @@ pub fn make(property: &str, suite: &str, scenario: &str, p: &Params, notes: &Not
             "see scenario_choices.below_threshold_signers_hex",
             notes.get("below_threshold_signers_hex").map(|v| v.to_string().replace('[', "vec![")).unwrap_or_else(|| "vec![]".into()),
         ),
+        w if w.starts_with("scenario_wrappers_") => {
+            let get = |k: &str| notes.get(k).and_then(Value::as_str).unwrap_or("?").to_string();
+            format!(
+                "    // Wrapper equivalence (property {property}): `{wrapper}` must return what `{target}` returns on the same inputs.\n    // Input of the failing comparison: {input}.\n    // Build that input from the key material above, call BOTH functions on it (functions that take a random source: give each its own\n    // `rand_chacha::ChaChaRng::from_seed([7u8; 32])`; frost-core and rand_chacha are dev-dependencies of the suite crate) and\n    // `assert_eq!` the two results.  Recorded choices: {choices}\n    let _ = (&key_packages, &pubkeys, &signers, &message);\n",
+                wrapper = get("wrapper"),
+                target = get("compared_with"),
+                input = get("wrapper_input"),
+                choices = Value::Object(notes.clone()).to_string().replace('\n', " "),
+            )
+        }
         _ => format!(
             "    // Scenario `{scenario}` of property {property}: the scenario-specific steps are not templated.\n    // Follow the check recorded in the JSON (\"check\", \"expected\", \"observed\") with these choices:\n    // {}\n    let _ = (&key_packages, &pubkeys, &signers, &message);\n",
             Value::Object(notes.clone()).to_string().replace('\n', " ")
